@@ -83,6 +83,24 @@ End Integrate.
 Arguments t {T} _. Arguments dt {T} _. Arguments dtld {T} _. Arguments status {T} _.
 Arguments steps {T} _. Arguments lfd {T} _. Arguments mkSt {T} _ _ _ _ _ _.
 
+(* a sequence of integrate calls on one simulation: t, dt and steps_done are carried from call to call
+   (dt_last_done too in the library, but integrate_raw resets it to 0 on entry); the sequence stops at the
+   first call that does not return SUCCESS (that is what the caller sees) *)
+Section Seq.
+Context {T : Type} (N : Num T).
+Context (c1em12 c1em200 : T) (stepper : T -> T -> T -> T * T * T) (hb : nat -> option Z) (exact : bool).
+Fixpoint integrate_seq (fuel : nat) (targets : list T) (s : @st T) : option (@st T) :=
+  match targets with
+  | [] => Some s
+  | tm :: rest =>
+      match integrate N c1em12 c1em200 stepper hb tm false exact true fuel (t s) (dt s) (steps s) with
+      | None => None
+      | Some s1 => if (status s1 =? 0)%Z then integrate_seq fuel rest s1 else Some s1
+      end
+  end.
+End Seq.
+
+
 (* concrete time-update kinds of the integrators (see DESIGN C08) *)
 Section Steppers.
 Context {T : Type} (N : Num T).
@@ -90,8 +108,9 @@ Definition two := nadd N (none N) (none N).
 (* leapfrog, WHFast, SEI:  t += dt/2 (part1);  t += dt/2 (part2);  dt_last_done = dt *)
 Definition step_half (t dt dtld : T) : T * T * T :=
   (nadd N (nadd N t (ndiv N dt two)) (ndiv N dt two), dt, dt).
-(* NONE, SABA, EOS, MERCURIUS, TRACE (no rejection), WHFast512:  t += dt;  dt_last_done = dt *)
+(* NONE, SABA, EOS, JANUS, MERCURIUS, TRACE (no rejection), WHFast512:  t += dt;  dt_last_done = dt *)
 Definition step_full (t dt dtld : T) : T * T * T := (nadd N t dt, dt, dt).
-(* JANUS:  t += dt;  dt_last_done untouched *)
+(* t += dt;  dt_last_done untouched: JANUS before /repo 6b44a1d (it now sets dt_last_done = dt like the others);
+   kept as a member of the stepper class of ProofsDir.v *)
 Definition step_janus (t dt dtld : T) : T * T * T := (nadd N t dt, dt, dtld).
 End Steppers.
